@@ -77,6 +77,14 @@ CLAIMS = {
             "failing write, the directory holds the old or the new complete, previously verified file. "
             "fsync/power-loss durability is outside the claim.",
             "DESIGN.md §4 C15"),
+    "C20": ("MIR must-pass-through + who-may-write (file-system effect table) + value-origin analysis of "
+            "tuftool::root::Command::* , clear_sigs, add_key and tuftool::write_file",
+            "Decides per subcommand, for every path: a root loaded from disk is written back only after "
+            "clear_sigs on that root (7 subcommands; init writes an empty signature list); root.json is "
+            "only ever replaced by temp-file-in-parent + successful write + persist; keys enter root.keys "
+            "only under key.key_id(); sign persists only through its signature-count test or "
+            "--ignore-threshold. That `sign` self-verifies is NOT the case today (recorded finding D12).",
+            "DESIGN.md §4 C20"),
 }
 
 NOT_YET = {}
